@@ -9,6 +9,8 @@ from collections.abc import Iterable, Sequence
 from mailbox import Maildir, NoSuchMailboxError
 from typing import TypeAlias, TypeVar, Protocol
 
+from pymap.exceptions import NotSupportedError
+
 __all__ = ['MaildirLayout', 'DefaultLayout', 'FilesystemLayout']
 
 _Parts: TypeAlias = Sequence[str]
@@ -152,10 +154,20 @@ class _BaseLayout(MaildirLayout[_MaildirT], metaclass=ABCMeta):
         return self._path
 
     @classmethod
+    def _valid_part(cls, part: str) -> bool:
+        if part in ('', '.', '..') or os.sep in part:
+            return False
+        return not any(ord(ch) < 0x20 or ord(ch) == 0x7f for ch in part)
+
+    @classmethod
     def _split(cls, name: str, delimiter: str) -> _Parts:
         if name == 'INBOX':
             return []
-        return name.split(delimiter)
+        parts = name.split(delimiter)
+        for part in parts:
+            if not cls._valid_part(part):
+                raise NotSupportedError('Invalid mailbox name.')
+        return parts
 
     @classmethod
     def _join(cls, parts: _Parts, delimiter: str) -> str:
@@ -249,6 +261,10 @@ class DefaultLayout(_BaseLayout[_MaildirT]):
 
     """
 
+    @classmethod
+    def _valid_part(cls, part: str) -> bool:
+        return '.' not in part and super()._valid_part(part)
+
     def _get_path(self, parts: _Parts) -> str:
         return os.path.join(self._path, self._get_subdir(parts))
 
@@ -303,6 +319,16 @@ class FilesystemLayout(_BaseLayout[_MaildirT]):
         maildir_type: The :class:`~mailbox.Maildir` class override.
 
     """
+
+    #: Names used by the maildir and its control files inside every folder.
+    _reserved = frozenset(['new', 'cur', 'tmp', 'maildirfolder',
+                           'dovecot-uidlist', 'dovecot-uidlist.lock',
+                           'dovecot-keywords', 'dovecot.sieve',
+                           'subscriptions', 'subscriptions.lock'])
+
+    @classmethod
+    def _valid_part(cls, part: str) -> bool:
+        return part not in cls._reserved and super()._valid_part(part)
 
     def _get_path(self, parts: _Parts) -> str:
         return os.path.join(self._path, *parts)
